@@ -79,6 +79,8 @@ class Wire(object):
             self.tape.append((type(self.target).__name__, methname, tuple(a for a in args if isinstance(a, int))))
             if self.plan.get("hook"):
                 self.plan["hook"](methname)
+            if self.plan.get("fail_method") == methname and type(self.target).__name__ == "RemoteEncryptedUploadable":
+                raise Interrupted("connection lost before %s" % methname)
             if methname == "read_encrypted" and self.plan.get("fail_at"):
                 self.plan["reads"] = self.plan.get("reads", 0) + 1
                 if self.plan["reads"] == self.plan["fail_at"] and not self.plan.get("after"):
@@ -406,6 +408,42 @@ def one_file(ctx, rig, twin, fi, terms, info):
                 pos += ln
         if pos != size:
             fail("failover-transfer-gap", "fail-over at read %d: the requests %s do not cover the file" % (jf, got), case={"cut": jf})
+        rig.g.delete_shares(cap_d)
+
+    # ---- the connection is lost right AFTER the last chunk: the ciphertext is complete (moved to CHK_encoding/),
+    # nothing is pushed yet (the encoder's first question to the client, get_all_encoding_parameters, is not answered)
+    out, tape = rig.upload(data, conv, plan={"fail_method": "get_all_encoding_parameters"})
+    ctx.case(("cut-after-last", size, chunk, nchunks), kind="interrupted-after-last-chunk")
+    left = rig.leftovers()
+    if out.status == "ok":
+        fail("interrupted-upload-reported-success", "the connection was cut after the last chunk but the upload reported success", case={"cut": "after-last-chunk"})
+        rig.g.delete_shares(cap_d)
+    else:
+        enc = [v for p_, v in left.items() if p_.startswith("CHK_encoding/")]
+        if len(left) != 1 or len(enc) != 1 or enc[0] != ct:
+            fail("interrupted-transfer-leaves-wrong-file",
+                 "cut after the last chunk: the helper holds %s, expected the complete ciphertext in CHK_encoding" % {p_: len(v) for p_, v in left.items()},
+                 case={"cut": "after-last-chunk"}, observed={p_: len(v) for p_, v in left.items()})
+        if reads(tape) != [(o_, min(chunk, size - o_)) for o_ in range(0, size, chunk)]:
+            fail("helper-transfer-requests:cut-after-last-chunk", "the transfer before the cut did not fetch the whole file", observed=reads(tape))
+        if rig.g.find_shares(cap_d):
+            fail("interrupted-transfer-placed-shares", "cut after the last chunk: shares were placed although the encoder got no parameters", case={"cut": "after-last-chunk"})
+        if r.random() < 0.5:
+            rig.new_helper()
+        for attempt in (1, 2):
+            out, tape = rig.upload(data, conv)
+            ctx.case(("resume-after-last", size, chunk, attempt), kind="resumed-with-complete-ciphertext")
+            if enc and enc[0] == ct and len(left) == 1 and attempt == 1:
+                ok = check_result("resumed-with-complete-ciphertext", out, tape, size, chunk, delete=False)
+            else:
+                ok = check_result("retry-after-failed-restart", out, tape, 0, chunk, expect_reads=False, delete=False)
+            if ok:
+                break
+            for p_ in rig.leftovers():            # a failed retry must not poison the cases that follow
+                os.unlink(os.path.join(rig.dir, p_))
+        if rig.helper._active_uploads:
+            fail("upload-left-active-after-restart", "the helper still lists an active upload after the restart from CHK_encoding")
+            rig.helper._active_uploads.clear()
         rig.g.delete_shares(cap_d)
 
     # ---- two or three clients upload the same file through the one helper: in the same reactor turn, or the
